@@ -693,6 +693,18 @@ def t_linalg_norm(interp, t, ord=None, dim=None):
     raise Unsupported("linalg.norm dims")
 
 
+@prim("torch.linalg.matrix_norm")
+def t_matrix_norm(interp, t, ord="fro", dim=(-2, -1), keepdim=False):
+    # only the two orders with a numeric interpretation: Frobenius (= norm of all entries) and spectral (largest singular value)
+    if not isinstance(t, ATen) or t.rank != 2 or tuple(dim) != (-2, -1) or keepdim is not False:
+        raise Unsupported("matrix_norm of a non-matrix / other dims / keepdim")
+    if ord == "fro":
+        return mk("norm_all", [t], [], t.dtype, t.kind, real=U("norm_all_r", RealS, t.term))
+    if ord == 2 and not isinstance(ord, bool):
+        return mk("matnorm2", [t], [], t.dtype, t.kind, real=U("matnorm2_r", RealS, t.term))
+    raise Unsupported("matrix_norm order")
+
+
 @prim("numpy.linalg.norm")
 def n_linalg_norm(interp, t, ord=None):
     return mk("norm_all", [t], [], t.dtype, t.kind, real=U("norm_all_r", RealS, t.term))
